@@ -194,6 +194,13 @@ class FSym(LSym):
                 r = self.eval_cond(c)
                 if r is not None: return ins[3] if r else ins[4]
         return None
+    def symbolic_memcmp(self, xs, ys, diffs):
+        """byte-string comparison through memcmp/bcmp (array `==`): only equality is observable downstream"""
+        self.count("memcmp")
+        key = ("byteseq", tuple(d.key() for d in diffs))
+        v = self.oracle.decide(key, "bytes_eq(%d bytes, memcmp)" % len(diffs))
+        if not any(f[0] == "byteseq" and f[3] == key for f in self.facts): self.facts.append(("byteseq", xs, ys, key, v))
+        return ZERO if v else ONE
     def slice_ct_eq(self, a):
         """<[u8] as ConstantTimeEq>::ct_eq on byte strings: equal iff all bytes equal (predicate over byte polys)"""
         self.count("bytes_ct_eq")
@@ -279,12 +286,14 @@ class FSym(LSym):
                     d = self.ctx.resolve(self.P(ents[31][0]) - owner[0][1][31])
                     if d.is_zero() or (all(cc % 128 == 0 for cc in d.t.values()) and self.is_bool(d.divexact(128))):
                         self.put(a[0], FE(cb[0][0])); return None
-        tot = 0
+        tot = ZERO
         for k in range(32):
-            v = self.P(self.load(Ptr(src.r, src.o + k), 1))
-            if not v.is_const(): raise Unsupported("from_bytes of symbolic raw bytes (use ByteString)")
-            tot |= v.cval() << (8 * k)
-        self.put(a[0], FE(Poly.const((tot & ((1 << 255) - 1)) % P)))
+            v = self.ctx.resolve(self.P(self.load(Ptr(src.r, src.o + k), 1)))
+            if k == 31: v = self.ctx.cut(v, 7)[1]          # bit 255 is ignored
+            tot = tot + v.scale(1 << (8 * k))
+        tot = self.ctx.resolve(tot)
+        if not tot.is_const(): raise Unsupported("from_bytes of symbolic raw bytes (use ByteString)")
+        self.put(a[0], FE(Poly.const(tot.cval() % P)))
     # ---- contracts
     def invert(self, a):
         self.count("invert")
